@@ -12,6 +12,10 @@ Three layers, all exhaustive over the same structured reference grammar (verif/o
         (a) FlowIRConcrete.validate(top_level_folders=Manifest(..).top_level_folders) and (b) the user-facing loader
         ExperimentConfigurationFactory.configurationForExperiment(<file>, manifest=<manifest>) which expands the
         references and validates them.
+  appdep / manifest : FlowIR.application_dependency_to_name of every declared entry, Manifest.top_level_folders of
+        every manifest.
+  hist: a two-step history on the real configuration object: load under manifest A, parametrize(manifest=B); the
+        references whose class differs between A and B are judged under B, the manifest in effect.
 """
 import itertools
 import os
@@ -40,7 +44,12 @@ RULE = ('References are generated structurally as [stage<N>.]head[/path]:method,
         'layer doc: per (context, owner stage) FlowIR documents with one consumer component per reference, paths '
         '{none, b/f.txt, sub/f.txt, run-%(v)s/f.txt} x methods {ref, copy} (quick) / 6 paths x all 8 methods '
         '(thorough), the variables v and v.w defined in the document, variable heads '
-        'left out, references the statement does not classify kept only without path. A case is non-trivial when the '
+        'left out, references the statement does not classify kept only without path; layer appdep: '
+        'application_dependency_to_name of every declared entry; layer hist: for every ordered pair (A, B) of distinct '
+        'manifests and known sets {empty, same-name-in-two-stages} [all 4 thorough] x application-dependency lists: '
+        'configurationForExperiment(manifest=A) then parametrize(manifest=B), every reference (paths {none, b/f.txt, '
+        'sub/f.txt, run-%(v)s/f.txt}, method ref, both owner stages) whose class under A differs from its class under B, '
+        'judged under B. A case is non-trivial when the '
         'statement fixes its class (component / not-a-component) or it has a stage prefix or a path; distinct = '
         'distinct (layer, reference string, context id, owner stage). Failing cases that differ from an already recorded '
         'failure only in path/method/owner stage (same layer, context, head, prefix, signature) are counted in '
